@@ -272,6 +272,36 @@ impl Dyn for DIsaac64Core {
     }
 }
 
+// ---- IsaacArray<T>: the results buffer type with hand-written PartialEq and (de)serializer ----
+type Arr32 = <rand_isaac::isaac::IsaacCore as BlockRngCore>::Results;
+type Arr64 = <rand_isaac::isaac64::Isaac64Core as BlockRngCore>::Results;
+macro_rules! arr_kind {
+    ($w:ident, $ty:ty, $name:expr, $conv:expr) => {
+        pub struct $w(pub $ty);
+        impl Dyn for $w {
+            fn kind(&self) -> &'static str {
+                $name
+            }
+            fn as_any(&self) -> &dyn Any {
+                self
+            }
+            fn clone_box(&self) -> Option<Box<dyn Dyn>> {
+                Some(Box::new(Self(self.0.clone())))
+            }
+            eq_method!();
+            serde_methods!();
+            fn debug(&self) -> (String, String) {
+                (String::new(), String::new())
+            }
+            fn obs(&self) -> Value {
+                json!({ "arr": Value::Array(self.0.as_ref().iter().map(|&x| $conv(x)).collect()) })
+            }
+        }
+    };
+}
+arr_kind!(DIsaacArr32, Arr32, "IsaacArrayU32", u32j);
+arr_kind!(DIsaacArr64, Arr64, "IsaacArrayU64", u64j);
+
 // ---- JitterRng over a scripted timer ----
 use crate::sources::{make_timer, Cursor, TimerState};
 use std::sync::atomic::Ordering;
@@ -440,6 +470,30 @@ pub fn construct(kind: &str, c: Ctor) -> Built {
         "Hc128Core" => build!(DHc128Core, rand_hc::Hc128Core, c, serde = no),
         "IsaacCore" => build!(DIsaacCore, rand_isaac::isaac::IsaacCore, c, serde = yes),
         "Isaac64Core" => build!(DIsaac64Core, rand_isaac::isaac64::Isaac64Core, c, serde = yes),
+        #[cfg(feature = "serde1")]
+        "IsaacArrayU32" => match c {
+            Ctor::DeBincode(b) => match bincode::deserialize::<Arr32>(b) {
+                Ok(r) => Built::Ok(Box::new(DIsaacArr32(r))),
+                Err(e) => Built::Unsupported(format!("deserialize: {}", e)),
+            },
+            Ctor::DeJson(t) => match serde_json::from_str::<Arr32>(t) {
+                Ok(r) => Built::Ok(Box::new(DIsaacArr32(r))),
+                Err(e) => Built::Unsupported(format!("deserialize: {}", e)),
+            },
+            _ => Built::Unsupported("IsaacArray is built from an image only".into()),
+        },
+        #[cfg(feature = "serde1")]
+        "IsaacArrayU64" => match c {
+            Ctor::DeBincode(b) => match bincode::deserialize::<Arr64>(b) {
+                Ok(r) => Built::Ok(Box::new(DIsaacArr64(r))),
+                Err(e) => Built::Unsupported(format!("deserialize: {}", e)),
+            },
+            Ctor::DeJson(t) => match serde_json::from_str::<Arr64>(t) {
+                Ok(r) => Built::Ok(Box::new(DIsaacArr64(r))),
+                Err(e) => Built::Unsupported(format!("deserialize: {}", e)),
+            },
+            _ => Built::Unsupported("IsaacArray is built from an image only".into()),
+        },
         _ => Built::Unsupported(format!("unknown kind {}", kind)),
     }
 }
